@@ -283,8 +283,32 @@ func (f *fn) assignLval(lhs ast.Expr, term string, k cont) (string, error) {
 			return "let " + pb.name + " := " + term + " in\n" + rest, nil
 		}
 		if l, lf, ok := f.layoutField(x); ok {
-			if lf == nil || lf.array {
+			if lf == nil {
 				return "", f.errf(x, "assignment to %s.%s is not understood", l.name, x.Sel.Name)
+			}
+			if lf.array {
+				// d.F = <array value>: every slot of the field, from the components of the tuple
+				if lf.count > 4 {
+					return "", f.errf(x, "assignment to array field %s.%s is not understood (more than 4 elements)", l.name, lf.name)
+				}
+				d, err := f.expr(x.X)
+				if err != nil {
+					return "", err
+				}
+				tmp := f.temp()
+				cur := d.term
+				for kk := 0; kk < lf.count; kk++ {
+					w, err := slotWrite(lf.scalar, proj(tmp, kk, lf.count))
+					if err != nil {
+						return "", f.errf(x, "%v", err)
+					}
+					cur = fmt.Sprintf("(set_slot %s %d %s)", cur, lf.off+kk, w)
+				}
+				body, err := f.assignLval(x.X, cur, k)
+				if err != nil {
+					return "", err
+				}
+				return "let " + tmp + " := " + term + " in\n" + body, nil
 			}
 			d, err := f.expr(x.X)
 			if err != nil {
